@@ -51,7 +51,40 @@ let cmd_dispatch (x : sx) : sx =
               sx_of_list sx_of_z (c17_result_shape (list_of_sx z_of_sx shape) (z_of_sx n))])
   | _ -> failwith "c17dispatch: expected (dims dest shape n)"
 
+(* (k table data) : the same loop body with the gathers processed in REVERSE order *)
+let cmd_face_rev (x : sx) : sx =
+  match x with
+  | L [k; t; data] ->
+      let tt = table_of_sx t in
+      let rows = list_of_sx (list_of_sx q_of_sx) data in
+      let gs = List.rev (c17_gathers tt) in
+      L (List.map (fun row -> sx_of_option (sx_of_list (sx_of_option sx_of_q))
+                     (c17_face_row_of_gathers (c17_agg_of (z_of_sx k)) gs tt row)) rows)
+  | _ -> failwith "c17facerev"
+
+(* (k edge_table data) : node -> edge over a supplied edge table, own order and orientation *)
+let cmd_edge_table (x : sx) : sx =
+  match x with
+  | L [k; en; data] ->
+      let en = list_of_sx (pair_of_sx z_of_sx z_of_sx) en in
+      let rows = list_of_sx (list_of_sx q_of_sx) data in
+      L (List.map (fun row -> sx_of_option (sx_of_list sx_of_q) (c17_edge_row (c17_agg_of (z_of_sx k)) en row)) rows)
+  | _ -> failwith "c17edgetable"
+
+(* (agg src) -> dtype code ; agg in model order 0..9, dtype 0 bool 1 int32 2 int64 3 float32 4 float64 *)
+let agg_of_int = function 0 -> C17_mean | 1 -> C17_max | 2 -> C17_min | 3 -> C17_prod | 4 -> C17_sum
+  | 5 -> C17_std | 6 -> C17_var | 7 -> C17_median | 8 -> C17_all | _ -> C17_any
+let dt_of_int = function 0 -> C17_bool | 1 -> C17_int32 | 2 -> C17_int64 | 3 -> C17_float32 | _ -> C17_float64
+let int_of_dt = function C17_bool -> 0 | C17_int32 -> 1 | C17_int64 -> 2 | C17_float32 -> 3 | C17_float64 -> 4
+let cmd_dtype (x : sx) : sx =
+  match x with
+  | L [a; d] -> A (string_of_int (int_of_dt (c17_result_dtype (agg_of_int (int_of_sx a)) (dt_of_int (int_of_sx d)))))
+  | _ -> failwith "c17dtype"
+
 let commands : (string * (sx -> sx)) list = [
+  "c17facerev", cmd_face_rev;
+  "c17edgetable", cmd_edge_table;
+  "c17dtype", cmd_dtype;
   "c17face", cmd_face;
   "c17edge", cmd_edge;
   "c17parts", cmd_parts;
